@@ -310,7 +310,12 @@ def c10_build(seed, tier):
             t = ts[r.randrange(len(ts))]
             mode = r.choice(["equal", "negated", "unrelated"])
             c2 = t[1] if mode == "equal" else (-t[1] if mode == "negated" else _mag(r, exact4))
-            ts.insert(r.randint(0, len(ts)), [{k: -v for k, v in t[0].items()}, c2])
+            opp = {k: -v for k, v in t[0].items()}
+            if r.random() < 0.25:
+                extra = [v for v in vs if v not in opp]
+                if extra:
+                    opp[r.choice(extra)] = _mag(r, exact4)  # almost opposite: one more variable
+            ts.insert(r.randint(0, len(ts)), [opp, c2])
         return ts
 
     return {"op": "serial", "exact4": exact4, "c": {"in": ins, "out": outs, "a": lst(ins), "g": lst(names)}, "mode": r.choice(["machine_dict", "machine_file", "strings", "human_file"])}
